@@ -30,6 +30,7 @@ type frame struct {
 	panicking bool
 	panicVal  interface{}
 	caller    *frame
+	loops     map[*ssa.BasicBlock]int
 }
 
 func (ex *Exec) posOf(p token.Pos) string {
@@ -280,6 +281,11 @@ func (ex *Exec) invoke(fr *frame, call *ssa.CallCommon, args []Value, pos token.
 }
 
 func (ex *Exec) visitInstr(fr *frame, instr ssa.Instruction) cont {
+	if ex.fp != nil {
+		if p := instr.Pos(); p.IsValid() {
+			ex.where = ex.posOf(p) + " (" + fr.fn.Name() + ")"
+		}
+	}
 	switch instr := instr.(type) {
 	case *ssa.DebugRef:
 	case *ssa.UnOp:
@@ -441,6 +447,7 @@ func (ex *Exec) visitInstr(fr *frame, instr ssa.Instruction) cont {
 		if m == nil {
 			ex.rtPanic(fr, "nilmap", "assignment to entry in nil map", instr.Pos())
 		}
+		ex.noteMap(m, true)
 		ex.mapSet(m, fr.get(instr.Key), fr.get(instr.Value))
 	case *ssa.TypeAssert:
 		fr.env[instr] = ex.typeAssert(fr, instr)
@@ -470,8 +477,12 @@ func (ex *Exec) loopCheck(fr *frame) {
 	b := fr.block
 	// a back edge: target index <= source index
 	if fr.prev != nil && b.Index <= fr.prev.Index {
-		ex.loopVisit[b]++
-		if ex.loopVisit[b] > ex.eng.loopBound {
+		// per activation of the function: a loop may run loopBound iterations each time it is entered
+		if fr.loops == nil {
+			fr.loops = map[*ssa.BasicBlock]int{}
+		}
+		fr.loops[b]++
+		if fr.loops[b] > ex.eng.loopBound {
 			panic(&pathEnd{reason: "unwind", detail: fmt.Sprintf("loop bound %d exceeded in %s (block %d)", ex.eng.loopBound, fr.fn, b.Index)})
 		}
 	}
@@ -602,6 +613,9 @@ func (ex *Exec) symLoad(p *SymPtr) Value {
 
 func (ex *Exec) symStore(p *SymPtr, v Value) {
 	tt := ex.tt
+	for i := range p.elems {
+		ex.noteWrite(&p.elems[i])
+	}
 	for i := range p.elems {
 		p.elems[i] = tt.Ite(tt.Eq(p.idx, tt.BV(64, uint64(i))), v.(*Term), p.elems[i].(*Term))
 	}
@@ -740,6 +754,7 @@ func (ex *Exec) lookup(fr *frame, instr *ssa.Lookup) Value {
 	x := fr.get(instr.X)
 	switch v := x.(type) {
 	case *Map:
+		ex.noteMap(v, false)
 		var valT types.Type
 		if mt, ok := under(instr.X.Type()).(*types.Map); ok {
 			valT = mt.Elem()
@@ -925,7 +940,13 @@ func (ex *Exec) callBuiltin(fr *frame, b *ssa.Builtin, args []Value, pos token.P
 			copy(nd, s.data)
 		}
 		for i, a := range add {
+			if need <= cap(s.data) {
+				ex.noteWrite(&nd[len(s.data)+i]) // written into the shared backing array
+			}
 			nd[len(s.data)+i] = copyVal(a)
+		}
+		if t, ok := args[1].(Slice); ok {
+			ex.noteSlice(t, false)
 		}
 		return Slice{data: nd}
 	case "copy":
@@ -949,7 +970,11 @@ func (ex *Exec) callBuiltin(fr *frame, b *ssa.Builtin, args []Value, pos token.P
 			tmp[i] = copyVal(src[i])
 		}
 		for i := 0; i < n; i++ {
+			ex.noteWrite(&dst.data[i])
 			dst.data[i] = tmp[i]
+		}
+		if t, ok := args[1].(Slice); ok && n > 0 {
+			ex.noteSlice(Slice{data: t.data[:n]}, false)
 		}
 		return ex.tt.BV(64, uint64(n))
 	case "delete":
